@@ -503,6 +503,17 @@ func runDropDrift(c *Ctx, pkgs []string) {
 				}
 				lost = kept
 				gained := multisetDiff(cur, refCalls)
+				// a helper that the reference tree does not have was extracted – also when the helper itself has
+				// no effect (a constructor): what the function no longer does itself may be done there
+				allInstrs(g, func(ins ssa.Instruction) {
+					if cc := callOf(ins); cc != nil {
+						if sc := cc.StaticCallee(); sc != nil && sc.Object() != nil && sc.Pkg != nil && strings.HasPrefix(sc.Pkg.Pkg.Path(), modPath) {
+							if o, ok := sc.Object().(*types.Func); ok && !refHasFunc(o.FullName()) {
+								gained = append(gained, "S:"+o.FullName())
+							}
+						}
+					}
+				})
 				curF := assignedFields(g)
 				lostF := multisetDiff(dropRefCache.Fields[fk], curF)
 				gainedF := multisetDiff(curF, dropRefCache.Fields[fk])
